@@ -125,10 +125,6 @@ func (fl *Flow) condNodes(b *cfg.Block) []ast.Node {
 	if !ok {
 		return b.Nodes
 	}
-	sw := fl.caseSwitch(b, last)
-	if sw == nil || sw.Tag == nil {
-		return b.Nodes
-	}
 	if fl.preds == nil {
 		fl.preds = map[*cfg.Block][]*cfg.Block{}
 		for _, x := range fl.G.Blocks {
@@ -136,6 +132,26 @@ func (fl *Flow) condNodes(b *cfg.Block) []ast.Node {
 				fl.preds[s] = append(fl.preds[s], x)
 			}
 		}
+	}
+	sw := fl.caseSwitch(b, last)
+	if sw == nil || sw.Tag == nil {
+		// `if A {...} else if B {...}`: the block of B holds nothing but the condition and is entered only from A's
+		// block; what ran straight before B is what ran before A
+		cur := b
+		for depth := 0; depth < 8 && len(cur.Nodes) == 1; depth++ {
+			ps := fl.preds[cur]
+			if len(ps) != 1 || len(ps[0].Succs) != 2 || len(ps[0].Nodes) == 0 {
+				break
+			}
+			if _, isCond := ps[0].Nodes[len(ps[0].Nodes)-1].(ast.Expr); !isCond {
+				break
+			}
+			cur = ps[0]
+		}
+		if cur != b {
+			return cur.Nodes
+		}
+		return b.Nodes
 	}
 	cur := b
 	for depth := 0; depth < 64; depth++ {
